@@ -2,3 +2,4 @@
 //! stubs) and the instruction-level property drivers (binaries under src/bin/).
 pub mod util;
 pub mod runtime;
+pub mod world2;
